@@ -40,13 +40,16 @@ def build_symtrace():
     return time.time() - t0
 
 
-def trace(specs, tag, seed=0, max_paths=512):
+def trace(specs, tag, seed=0, max_paths=512, random_paths=None):
     """specs: list of (shape, kind, pres) -> parsed JSON cases"""
     build_symtrace()
     os.makedirs(WORK, exist_ok=True)
     out = os.path.join(WORK, f'trace_{tag}_{os.getpid()}.json')
     inp = ''.join(f'{s}|{k}|{p}\n' for (s, k, p) in specs)
     env = dict(os.environ, VERIF_SEED=str(seed), SYMTRACE_MAX_PATHS=str(max_paths))
+    env.pop('SYMTRACE_RANDOM_PATHS', None)
+    if random_paths:
+        env['SYMTRACE_RANDOM_PATHS'] = str(random_paths)
     p = subprocess.run([BIN, 'trace', out], input=inp, text=True, env=env,
                        stdout=subprocess.PIPE, stderr=subprocess.PIPE)
     if p.returncode != 0:
